@@ -337,7 +337,7 @@ func init() {
 					}
 				}
 			}
-			n := l.N(1000, 20000)
+			n := l.N(1000, 60000)
 			rng := l.Rng()
 			for i := 0; i < n; i++ {
 				p := c20Params{Universe: 48 + rng.Intn(153), Steps: 1 + rng.Intn(300)}
